@@ -18,10 +18,14 @@ _OLDMETA_RULE = (
     "the PRE state — i.e. the whole sync (all of its page writes applied) touched no page the previous state reads: T17_6 / T17_7 / T4_10 evaluated on the real files, hash table and Merkle checks excluded "
     "(the table is rewritten in place after the switch-over). Harness oracles independent of Lean: the reserved page 0 of `ln` / `bbn` is byte-identical before and after, the files never shrink; counters: pages of the old "
     "state's range that changed (re-used free pages), pages written beyond the old frontier, switch-overs."
+    " Rollback-log side of the same lines: the directory also holds the rollback segments as they were BEFORE (pre/) and as they are AFTER the operation, the POST meta page and max_rollback_log_len; "
+    "every record recovery under the PREVIOUS manifest reads (live range, last max_rollback_log_len: `absRecs`, mirror of `absLog` of Store/CrashLog.lean) must still be there byte for byte, or be gone AND "
+    "unread under the NEW manifest (outside its live range — rolled back / pruned —, or in a dead oldest segment while max_rollback_log_len newer live records remain: `absLog_drop_lagging`); every record that "
+    "appeared has an id beyond the previous live range (appends only) — counters old_rb_kept / old_rb_pruned / old_rb_appended."
 )
 EXTRA = {
     "C17": {"runs": _OLDMETA_RUNS, "rule": _OLDMETA_RULE,
             "trusted_base": ["4 KiB page writes are atomic and touch only their page (Touched / writePage of Store/FrameWrite.lean is the model of pwrite)"],
-            "assumptions": ["T17_7 / T4_10 assume bbn_leaked = 0 for the pre-image (reported by the image monitor on every snapshot; the old-meta monitor itself needs no such assumption)"]},
+            "assumptions": ["the rollback-log clause of the old-meta monitor is a monitor only (its abstract counterpart is T4.2 / T4.2a); when the segments were destroyed relative to the switch-over is decided by the order / placement monitors (no unlink / truncation before the meta write)"]},
     "C04": {"runs": _OLDMETA_RUNS[:3] + _OLDMETA_RUNS[4:5], "rule": _OLDMETA_RULE},
 }
